@@ -13,7 +13,8 @@ From BBS Require Import Common.Sx Buffer.Source Buffer.Validate Buffer.Convert
   Buffer.StreamProofs Buffer.ValidateProofs Buffer.ConvertProofs
   Buffer.ValidateReaderProofs Buffer.ReaderBufferProofs Buffer.ConvertProofs2 Buffer.OtherwiseProofs Run.R09
   Buffer.C09FullValidate Buffer.C09FullCombinators Buffer.C09FullReader Buffer.C09FullChunk
-  Buffer.C09FullReaderBuf Buffer.C09FullSizeFirst Buffer.C09FullComplete Buffer.C09FullMonitor Buffer.C09FullExtras.
+  Buffer.C09FullReaderBuf Buffer.C09FullSizeFirst Buffer.C09FullComplete Buffer.C09FullMonitor Buffer.C09FullExtras
+  Buffer.C09FuelLoops Buffer.C09FuelSuffices Buffer.C09FuelProps.
 Import ListNotations.
 Open Scope N_scope.
 
@@ -136,10 +137,77 @@ Theorem reader_buffer_complete_implies_valid : forall H cfg fuel evs attach m o,
 Proof. exact ReaderBufferProofs.reader_complete_implies_valid. Qed.
 Print Assumptions reader_buffer_complete_implies_valid.
 
+(** * The model's fuel.  Every consumption loop of the model runs on a fuel
+    counter and yields the marker [EFuel] when it runs out; one fuel value is
+    handed to every loop.  [script_fuel evs] (= 16 + 4 * (number of events +
+    number of bytes in chunks), the value [run09] uses) is enough: for EVERY
+    script, digest, hash function, attach flag and method whose loop
+    parameters are positive ([good_param]: ToChunkReader's maximum chunk size
+    and every ToReader buffer size at least 1), no constructor's outcome is
+    [EFuel].  Monotone in the fuel.  (A maximum chunk size 0 makes the
+    normalizing reader hand out empty chunks for ever, a zero-length read
+    buffer makes no progress either: witnesses [c09_fuel_needs_good_param].) *)
+Theorem script_fuel_suffices_chunk_reader : forall H cfg fuel evs m,
+  (script_fuel evs <= fuel)%nat -> good_param m = true ->
+  o_err (cas_chunk_reader H cfg fuel evs m) <> EFuel.
+Proof. exact chunk_fuel_suffices. Qed.
+Print Assumptions script_fuel_suffices_chunk_reader.
+
+Theorem script_fuel_suffices_reader : forall H cfg fuel evs attach m,
+  (script_fuel evs <= fuel)%nat -> good_param m = true ->
+  o_err (cas_reader H cfg fuel evs attach m) <> EFuel.
+Proof. exact reader_fuel_suffices. Qed.
+Print Assumptions script_fuel_suffices_reader.
+
+(** NewCASBufferFromByteSlice: fuel above the length of the data; in particular
+    [script_fuel] of a script whose content the data is. *)
+Theorem script_fuel_suffices_byte_slice : forall H cfg fuel data m,
+  (length data < fuel)%nat -> good_param m = true ->
+  o_err (cas_byte_slice H cfg fuel data m) <> EFuel.
+Proof. exact byte_slice_fuel_suffices. Qed.
+Print Assumptions script_fuel_suffices_byte_slice.
+
+Theorem script_fuel_suffices_byte_slice_of_script : forall H cfg fuel evs m,
+  (script_fuel evs <= fuel)%nat -> good_param m = true ->
+  o_err (cas_byte_slice H cfg fuel (fst (content evs)) m) <> EFuel.
+Proof. exact byte_slice_script_fuel_suffices. Qed.
+Print Assumptions script_fuel_suffices_byte_slice_of_script.
+
+(** the decoded model run of [run09] never ends with [EFuel] *)
+Theorem script_fuel_suffices_run09 : forall inp,
+  good_param (k_meth (dec_case inp)) = true -> o_err (out09 inp) <> EFuel.
+Proof. exact out09_not_fuel. Qed.
+Print Assumptions script_fuel_suffices_run09.
+
+(** Non-vacuity: a script and a method that meet the hypotheses; and each
+    clause of [good_param] is needed (chunk size 0 / read buffer size 0 run out
+    of any fuel: here [script_fuel]). *)
+Example c09_fuel_instance :
+  let H := lookup [([1; 2; 3], [9; 9])] in
+  let cfg := mkVcfg [9; 9] 3 13 in
+  let evs := [Chunk [1]; Chunk []; Chunk [2; 3]; Eof] in
+  let m := MToChunkReader 1 2 1 in
+  (script_fuel evs <= script_fuel evs)%nat /\ good_param m = true /\
+  cas_chunk_reader H cfg (script_fuel evs) evs m = mkOut [2; 3] EEof [EEof] [true] 1 [].
+Proof. split; [apply le_n|]. vm_compute. auto. Qed.
+Example c09_fuel_needs_good_param :
+  let H := lookup [([1; 2; 3], [9; 9])] in
+  let cfg := mkVcfg [9; 9] 3 13 in
+  let evs := [Chunk [1]; Chunk [2; 3]; Eof] in
+  good_param (MToChunkReader 0 0 0) = false /\ good_param (MToReader [2; 0] 0) = false /\
+  o_err (cas_chunk_reader H cfg (script_fuel evs) evs (MToChunkReader 0 0 0)) = EFuel /\
+  o_err (cas_reader H cfg (script_fuel evs) evs true (MToChunkReader 0 0 0)) = EFuel /\
+  o_err (cas_byte_slice H cfg (script_fuel evs) [1; 2; 3] (MToChunkReader 0 0 0)) = EFuel /\
+  o_err (cas_chunk_reader H cfg (script_fuel evs) evs (MToReader [2; 0] 0)) = EFuel /\
+  o_err (cas_reader H cfg (script_fuel evs) evs false (MToReader [2; 0] 0)) = EFuel /\
+  o_err (cas_byte_slice H cfg (script_fuel evs) [1; 2; 3] (MToReader [2; 0] 0)) = EFuel.
+Proof. vm_compute. repeat split; reflexivity. Qed.
+
 (** * The "otherwise" half at constructor level, for EVERY consumption method
     (ToByteSlice, IntoWriter, ReadAt, ToChunkReader at any offset and chunk
     size, ToReader with any read sizes, CloneCopy + ToByteSlice on both copies;
-    Discard consumes nothing), every script, digest, hash function and fuel.
+    Discard consumes nothing), every script, digest, hash function, and every
+    fuel of at least [script_fuel] with positive loop parameters ([good_param]).
 
     (a) The integrity callback verdicts are sound — no hypothesis at all (not
         even on fuel): never positive for mismatching content, never negative
@@ -181,34 +249,38 @@ Print Assumptions expected_err_is_error.
 
 (** (c) Invalid content, parameters the method accepts ([bad_param] = false:
     max >= size for ToByteSlice/CloneCopy, offset >= 0 for ReadAt, 0 <= offset
-    <= size for ToChunkReader), the model did not run out of fuel: the
+    <= size for ToChunkReader), positive loop parameters and fuel of at least
+    [script_fuel] (so the model does not run out of fuel): the
     consumer receives exactly [expected_err]; counted from the method's offset
     it has received fewer than [size] bytes of the candidate (nothing at all
     through the non-streaming methods). *)
 Theorem chunk_reader_buffer_otherwise : forall H cfg fuel evs m o,
-  m <> MDiscard -> cas_chunk_reader H cfg fuel evs m = o -> o_err o <> EFuel ->
+  m <> MDiscard -> cas_chunk_reader H cfg fuel evs m = o ->
+  (script_fuel evs <= fuel)%nat -> good_param m = true ->
   ~ valid_script H cfg evs -> bad_param (g_size cfg) m = false ->
   o_err o = expected_err cfg (fst (content evs)) (snd (content evs)) /\
   (o_data o = [] \/ Z.to_N (m_off m) + lenN (o_data o) < g_size cfg) /\
   (streams m = false -> o_data o = []).
-Proof. exact chunk_otherwise. Qed.
+Proof. exact chunk_otherwise_fuel. Qed.
 Print Assumptions chunk_reader_buffer_otherwise.
 
 Theorem reader_buffer_otherwise : forall H cfg fuel evs attach m o,
-  m <> MDiscard -> cas_reader H cfg fuel evs attach m = o -> o_err o <> EFuel ->
+  m <> MDiscard -> cas_reader H cfg fuel evs attach m = o ->
+  (script_fuel evs <= fuel)%nat -> good_param m = true ->
   ~ valid_script H cfg evs -> bad_param (g_size cfg) m = false ->
   o_err o = expected_err cfg (fst (content evs)) (snd (content evs)) /\
   (o_data o = [] \/ Z.to_N (m_off m) + lenN (o_data o) < g_size cfg) /\
   (streams m = false -> o_data o = []).
-Proof. exact reader_otherwise. Qed.
+Proof. exact reader_otherwise_fuel. Qed.
 Print Assumptions reader_buffer_otherwise.
 
 (** (d) A parameter the method must reject is rejected with INVALID_ARGUMENT
-    before anything is read (whatever the content). *)
+    before anything is read (whatever the content and the loop parameters). *)
 Theorem chunk_reader_buffer_bad_param : forall H cfg fuel evs m o,
-  cas_chunk_reader H cfg fuel evs m = o -> o_err o <> EFuel -> bad_param (g_size cfg) m = true ->
+  cas_chunk_reader H cfg fuel evs m = o -> (script_fuel evs <= fuel)%nat ->
+  bad_param (g_size cfg) m = true ->
   o_err o = ECode 3 /\ o_data o = [] /\ o_cbs o = [] /\ o_aux o = [].
-Proof. exact chunk_bad_param. Qed.
+Proof. exact chunk_bad_param_fuel. Qed.
 Print Assumptions chunk_reader_buffer_bad_param.
 
 Theorem reader_buffer_bad_param : forall H cfg fuel evs attach m o,
@@ -218,44 +290,49 @@ Proof. exact reader_bad_param. Qed.
 Print Assumptions reader_buffer_bad_param.
 
 (** (e) The converse the monitor relies on: VALID content with accepted
-    parameters is never rejected — the call / stream completes (unless the
-    model runs out of fuel). *)
+    parameters (and positive loop parameters, fuel of at least [script_fuel])
+    is never rejected — the call / stream completes. *)
 Theorem chunk_reader_buffer_valid_completes : forall H cfg fuel evs m o,
-  m <> MDiscard -> cas_chunk_reader H cfg fuel evs m = o -> o_err o <> EFuel ->
+  m <> MDiscard -> cas_chunk_reader H cfg fuel evs m = o ->
+  (script_fuel evs <= fuel)%nat -> good_param m = true ->
   valid_script H cfg evs -> bad_param (g_size cfg) m = false ->
   completed m (o_err o) = true.
-Proof. exact chunk_valid_completes. Qed.
+Proof. exact chunk_valid_completes_fuel. Qed.
 Print Assumptions chunk_reader_buffer_valid_completes.
 
 Theorem reader_buffer_valid_completes : forall H cfg fuel evs attach m o,
-  m <> MDiscard -> cas_reader H cfg fuel evs attach m = o -> o_err o <> EFuel ->
+  m <> MDiscard -> cas_reader H cfg fuel evs attach m = o ->
+  (script_fuel evs <= fuel)%nat -> good_param m = true ->
   valid_script H cfg evs -> bad_param (g_size cfg) m = false ->
   completed m (o_err o) = true.
-Proof. exact reader_valid_completes. Qed.
+Proof. exact reader_valid_completes_fuel. Qed.
 Print Assumptions reader_buffer_valid_completes.
 
 (** (f) After the end of the stream nothing more is handed out (any script,
-    valid or not): further reads of a ToChunkReader repeat the error and carry
-    no data; further reads of a ToReader carry no data. *)
+    valid or not; positive loop parameters, fuel of at least [script_fuel]):
+    further reads of a ToChunkReader repeat the error and carry no data;
+    further reads of a ToReader carry no data. *)
 Theorem chunk_reader_buffer_chunk_reader_extras : forall H cfg fuel evs off max k,
   let o := cas_chunk_reader H cfg fuel evs (MToChunkReader off max k) in
-  o_err o <> EFuel -> o_extra o = repeat (o_err o) k /\ o_aux o = [].
-Proof. exact chunk_to_chunk_reader_extras. Qed.
+  (script_fuel evs <= fuel)%nat -> good_param (MToChunkReader off max k) = true ->
+  o_extra o = repeat (o_err o) k /\ o_aux o = [].
+Proof. exact chunk_to_chunk_reader_extras_fuel. Qed.
 Print Assumptions chunk_reader_buffer_chunk_reader_extras.
 Theorem reader_buffer_chunk_reader_extras : forall H cfg fuel evs attach off max k,
   let o := cas_reader H cfg fuel evs attach (MToChunkReader off max k) in
-  o_err o <> EFuel -> o_extra o = repeat (o_err o) k /\ o_aux o = [].
-Proof. exact reader_to_chunk_reader_extras. Qed.
+  (script_fuel evs <= fuel)%nat -> good_param (MToChunkReader off max k) = true ->
+  o_extra o = repeat (o_err o) k /\ o_aux o = [].
+Proof. exact reader_to_chunk_reader_extras_fuel. Qed.
 Print Assumptions reader_buffer_chunk_reader_extras.
 Theorem chunk_reader_buffer_reader_extras : forall H cfg fuel evs caps k,
   let o := cas_chunk_reader H cfg fuel evs (MToReader caps k) in
-  o_err o <> EFuel -> o_aux o = [].
-Proof. exact chunk_to_reader_extras. Qed.
+  (script_fuel evs <= fuel)%nat -> good_param (MToReader caps k) = true -> o_aux o = [].
+Proof. exact chunk_to_reader_extras_fuel. Qed.
 Print Assumptions chunk_reader_buffer_reader_extras.
 Theorem reader_buffer_reader_extras : forall H cfg fuel evs attach caps k,
   let o := cas_reader H cfg fuel evs attach (MToReader caps k) in
-  o_err o <> EFuel -> o_aux o = [].
-Proof. exact reader_to_reader_extras. Qed.
+  (script_fuel evs <= fuel)%nat -> good_param (MToReader caps k) = true -> o_aux o = [].
+Proof. exact reader_to_reader_extras_fuel. Qed.
 Print Assumptions reader_buffer_reader_extras.
 
 (** (g) NewCASBufferFromByteSlice validates eagerly: mismatching data => every
@@ -367,36 +444,44 @@ Proof. vm_compute. auto. Qed.
 
 (** * The monitor never fires on the model: for every input (any sx, all three
     constructors, every method) whose script error codes are genuine gRPC
-    error codes (positive) and on which the model did not run out of fuel,
-    all seven clauses of [mon09] are silent on the model's own output.
+    error codes (positive) and whose method has positive loop parameters
+    ([good_param]: ToChunkReader's maximum chunk size and every ToReader buffer
+    size at least 1), all seven clauses of [mon09] are silent on the model's
+    own output.  There is no fuel hypothesis any more: [run09] runs the model
+    on [script_fuel] of the decoded script, which suffices
+    ([script_fuel_suffices_run09]).
     Full statement (no hypotheses) is FALSE in the sx encoding — see the two
     witnesses below; kept as a comment:
       forall inp, mon09 inp (run09 inp) = []. *)
 Theorem mon09_silent_on_model_partial : forall inp,
   (forall x, In (Err x) (k_evs (dec_case inp)) -> (0 < x)%Z) ->
-  o_err (out09 inp) <> EFuel ->
+  good_param (k_meth (dec_case inp)) = true ->
   mon09 inp (run09 inp) = [].
-Proof. exact mon09_silent_on_model. Qed.
+Proof. exact mon09_silent_on_model_good. Qed.
 Print Assumptions mon09_silent_on_model_partial.
 
 (** Both hypotheses are necessary.  ToChunkReader with maximum chunk size 0
-    never ends (the normalizing reader hands out empty chunks for ever): the
-    model runs out of fuel and clause 3 fires on code -3.  A script error with
-    code 0 is passed through and reads as nil in an observation: clause 1. *)
+    ([good_param] = false) never ends (the normalizing reader hands out empty
+    chunks for ever): the model runs out of fuel and clause 3 fires on code -3.
+    A script error with code 0 is passed through and reads as nil in an
+    observation: clause 1. *)
 Example mon09_fires_without_fuel :
   let inp := L [A 2; A 0; L [A 0; L [A 9]; A 1]; L [A 0; L [L [A 0; L [A 7]]; L [A 2]]];
                 L [A 3; A 0; A 0; A 0]; L [L [L [A 7]; L [A 9]]]] in
+  good_param (k_meth (dec_case inp)) = false /\
   o_err (out09 inp) = EFuel /\ mon09 inp (run09 inp) = [3%Z].
 Proof. vm_compute. auto. Qed.
 Example mon09_fires_on_error_code_0 :
   let inp := L [A 2; A 0; L [A 0; L [A 9]; A 1]; L [A 0; L [L [A 0; L [A 7]]; L [A 1; A 0]]];
                 L [A 0; A 5]; L [L [L [A 7]; L [A 9]]]] in
+  good_param (k_meth (dec_case inp)) = true /\
   o_err (out09 inp) = ECode 0 /\ mon09 inp (run09 inp) = [1%Z].
 Proof. vm_compute. auto. Qed.
 (** non-vacuity: an input that meets both hypotheses *)
 Example mon09_silent_instance :
   let inp := L [A 2; A 1; L [A 0; L [A 9]; A 1]; L [A 0; L [L [A 0; L [A 7]]; L [A 2]]];
                 L [A 3; A 0; A 4; A 1]; L [L [L [A 7]; L [A 9]]]] in
-  (forall x, In (Err x) (k_evs (dec_case inp)) -> (0 < x)%Z) /\ o_err (out09 inp) = EEof /\
+  (forall x, In (Err x) (k_evs (dec_case inp)) -> (0 < x)%Z) /\
+  good_param (k_meth (dec_case inp)) = true /\ o_err (out09 inp) = EEof /\
   run09 inp = L [L [A 7]; A (-1); L [A (-1)]; L [A 1]; A 1; L []].
 Proof. vm_compute. split; [intros x [Hx|[Hx|[]]]; discriminate|auto]. Qed.
